@@ -148,6 +148,8 @@ def decOp (st : St) (j : Json) : Except String Op := do
   | "list_del" => pure (.listDel (← lst st j "l") (← getNat j "i"))
   | "list_inner_set" =>
     pure (.listInnerSet (← lst st j "l") (← getNat j "i") (← getNat j "j") (← getStr j "s"))
+  | "value_inner_set" =>
+    pure (.valueInnerSet (← obj st j "p") (← getNat j "i") (← getNat j "j") (← getStr j "s"))
   | "new_obj" =>
     pure (.newObj (← decKind (← getStr j "kind")) (← getStr j "name") (← strList j "attrs")
       (← decLits j "v"))
